@@ -45,7 +45,7 @@ def _idx(rng, n):
 
 def gen_numerical(rng, fam=None, size=None):
     fam = fam or rng.choice(['random', 'random', 'random', 'inf_only', 'all_missing', 'constant', 'single', 'ints', 'ints', 'two',
-                             'long', 'mixed_inf', 'special'])
+                             'long', 'mixed_inf', 'special', 'bigint'])
     n = rng.randint(1, 12)
     dtype = 'float64'
     if fam == 'scale':
@@ -56,6 +56,14 @@ def gen_numerical(rng, fam=None, size=None):
         if all(isinstance(c, float) and c.is_integer() and abs(c) < 120 for c in cells if c is not None) or rng.random() < .3:
             cells = [None if c is None or isinstance(c, str) else float(int(c)) for c in cells]
             dtype = rng.choice(['Int64', 'Int32', 'Float64'])
+    elif fam == 'bigint':
+        # an int64 column of epoch-nanosecond magnitude without a missing cell (stays int64 in pandas): the exact
+        # sum leaves the int64 range from 6 rows on; every value is a multiple of 2**11, hence an exact double
+        n = rng.randint(6, 14)
+        base = rng.choice([1_700_000_000_000_000_000, 1_500_000_000_000_000_000, -1_650_000_000_000_000_000])
+        base -= base % 2048
+        cells = [float(base + 2048 * rng.randint(-10 ** 6, 10 ** 6)) for _ in range(n)]
+        dtype = 'int64'
     elif fam == 'special':
         cells = [None if rng.random() < .15 else rng.choice(SPECIAL_NUM) for _ in range(n)]
         dtype = rng.choice(['float64', 'float64', 'Float64'])
